@@ -1,3 +1,53 @@
-From Ebml Require Import Base Tools Spec.
-Example C11_ex : path_matches [PId 1; PGlobal (Some 1) (Some 1); PId 3] [1; 2; 3] = true.
-Proof. vm_compute. reflexivity. Qed.
+(* C11 — hierarchy validation equals declared path semantics, in reader and writer alike.  Statements only. *)
+From Ebml Require Import Base Tools Spec Writer Reader Proofs.Tactics Proofs.SpecProofs Proofs.WriterProofs.
+
+(* the matcher decides the declarative pattern semantics (Matches: each named parent matches exactly that master, each
+   placeholder (min-max) between min and max arbitrary masters, the whole chain consumed) — for every path and chain *)
+Theorem C11_matcher : forall p c, path_matches p c = true <-> Matches p c.
+Proof. exact path_matches_spec. Qed.
+
+(* root elements are accepted only with no master open *)
+Theorem C11_root : forall c, Matches [] c <-> c = [].
+Proof. exact matches_root. Qed.
+
+(* writer: the check accepts iff the chain of open masters (outermost first) matches the tag's declared path *)
+Theorem C11_writer : forall sp id o, w_validate sp id o = true <-> Matches (get_path sp id) (rev (open_ids o)).
+Proof. exact w_validate_spec. Qed.
+
+(* ... it is applied to every non-End tag whose id the specification knows, whatever the options (explicit width, unknown
+   size, deprecated call), and a rejection is the unexpected-tag error carrying the offending id and the chain, state unchanged *)
+Theorem C11_writer_rejects : forall sp t o st,
+  should_validate sp t = true ->
+  (o_unknown o && negb (is_master_ty (get_type sp (tag_id t))) = false) ->
+  (is_master_ty (get_type sp (tag_id t)) && negb (is_master_tag t) = false) ->
+  ~ Matches (get_path sp (tag_id t)) (rev (open_ids (w_open st))) ->
+  buffer_tag sp t o st = (st, WErr (EUnexpectedTag (tag_id t) (rev (open_ids (w_open st))))).
+Proof. exact writer_rejects. Qed.
+
+Theorem C11_writer_accepts : forall sp t o st,
+  Matches (get_path sp (tag_id t)) (rev (open_ids (w_open st))) ->
+  (o_unknown o && negb (is_master_ty (get_type sp (tag_id t))) = false) ->
+  (is_master_ty (get_type sp (tag_id t)) && negb (is_master_tag t) = false) ->
+  buffer_tag sp t o st = buffer_act sp t o st.
+Proof. exact writer_accepts. Qed.
+
+(* reader: an element is judged against the chain that remains after the unknown-size masters it closes *)
+Theorem C11_reader : forall sp tid stk,
+  validate_tag_path sp tid stk = true <->
+  Matches (get_path sp tid) (rev (map fst (skipn (count_ended sp tid stk) stk))).
+Proof. exact validate_spec. Qed.
+
+(* where the number of closed masters is the declarative closing rule: the largest k such that the k innermost open masters
+   all have unknown size and the outermost of them is ended by the element *)
+Theorem C11_closed_is_rule : forall sp tid stk, closes sp tid stk (count_ended sp tid stk).
+Proof. exact count_ended_closes. Qed.
+Theorem C11_closed_is_max : forall sp tid stk k, closes sp tid stk k -> (k <= count_ended sp tid stk)%nat.
+Proof. exact count_ended_max. Qed.
+
+Example C11_ex :
+  (* Root/(1-1)/GSub under Root/Parent/GSub: accepted (the defect fixed as D11 rejected it) *)
+  path_matches [PId 1; PGlobal (Some 1) (Some 1); PId 3] [1; 2; 3] = true /\
+  path_matches [PId 1; PGlobal (Some 2) (Some 2); PId 3] [1; 2; 3] = false /\
+  path_matches [PGlobal (Some 1) None] [] = false /\ path_matches [PGlobal None None] [] = true /\
+  path_matches [PId 1; PGlobal None (Some 1)] [1; 2; 3] = false.
+Proof. vm_compute. repeat split; reflexivity. Qed.
